@@ -111,7 +111,7 @@ func ruleRetryUntilDone(r *core.Reporter) {
 		retries := false
 		for _, ii := range ir.Ifs(fn) {
 			if errNil(ii.Atom) {
-				start := ir.Pt{B: ii.If.Block().Succs[ii.EdgeWhen(false)], I: 0}
+				start := ir.EdgePt(ii.If.Block(), ii.EdgeWhen(false))
 				if ir.Reach([]ir.Pt{start}, ir.Opts{}).Reached[qc] {
 					retries = true
 				}
@@ -672,8 +672,8 @@ func ruleLQUnique(r *core.Reporter) {
 		return
 	}
 	// true side: continue (back to the loop, no return); false side: return before commit
-	tStart := ir.Pt{B: uniq.If.Block().Succs[uniq.EdgeWhen(true)], I: 0}
-	fStart := ir.Pt{B: uniq.If.Block().Succs[uniq.EdgeWhen(false)], I: 0}
+	tStart := ir.EdgePt(uniq.If.Block(), uniq.EdgeWhen(true))
+	fStart := ir.EdgePt(uniq.If.Block(), uniq.EdgeWhen(false))
 	tRes := ir.Reach([]ir.Pt{tStart}, ir.Opts{Stop: func(in ssa.Instruction) bool { return in == ssa.Instruction(ins) || in == ssa.Instruction(commit) }})
 	skipOK := true
 	for in := range tRes.Reached {
@@ -691,7 +691,7 @@ func ruleLQUnique(r *core.Reporter) {
 	// commit on every path that leaves the loop normally
 	loop, okl := loopAround(add, ins)
 	if okl {
-		exit := ir.Pt{B: loop.If.Block().Succs[loop.EdgeWhen(false)], I: 0}
+		exit := ir.EdgePt(loop.If.Block(), loop.EdgeWhen(false))
 		if ret, bad := ir.PathExists([]ir.Pt{exit}, ir.Opts{Stop: func(in ssa.Instruction) bool { return in == ssa.Instruction(commit) }}, ir.IsExit); bad {
 			r.Violated("lq.Add/commit", p.InstrPos(ret), "Add can return after inserting the batch without committing the transaction (the deferred Rollback discards the outlinks)")
 		} else {
